@@ -75,6 +75,17 @@ func vpAscii(name string, n int) string {
 	return s
 }
 
+// vpJLookup: the tree a byte string stands for. Bytes that the environment did not hand
+// out (JSON text assembled or edited by hand in the code under test) are outside the
+// environment model: the path ends INCONCLUSIVE instead of being judged.
+func vpJLookup(b []byte) (*vpJ, bool) {
+	t, ok := vpJTok[string(b)]
+	if !ok {
+		vpUnsupported("JSON text that was not produced by the JSON environment reaches the library (assembled by hand?): outside the environment model")
+	}
+	return t, ok
+}
+
 func vpJBind(t *vpJ) []byte {
 	vpJCount++
 	tok := fmt.Sprintf("<T%d>", vpJCount)
@@ -137,7 +148,7 @@ func vpJGeneric(t *vpJ) any {
 }
 
 func vpStubUnmarshal(b []byte, v any) error {
-	t, ok := vpJTok[string(b)]
+	t, ok := vpJLookup(b)
 	if !ok {
 		return vpErrJSON
 	}
@@ -202,11 +213,11 @@ func vpStubNewDecoder(r io.Reader) *json.Decoder {
 	d := new(json.Decoder)
 	st := &vpJDec{trailing: vpJTrailing}
 	if buf, ok := r.(*bytes.Buffer); ok {
-		st.tree, st.ok = vpJTok[string(buf.Bytes())]
+		st.tree, st.ok = vpJLookup(buf.Bytes())
 	} else if rd, ok := r.(*bytes.Reader); ok {
 		b := make([]byte, rd.Len())
 		rd.Read(b)
-		st.tree, st.ok = vpJTok[string(b)]
+		st.tree, st.ok = vpJLookup(b)
 	}
 	vpJDecs[d] = st
 	return d
@@ -410,7 +421,8 @@ func vpToTree(v any) (*vpJ, error) {
 		if err != nil {
 			return nil, err
 		}
-		return vpJTok[string(b)], nil
+		t, _ := vpJLookup(b)
+		return t, nil
 	case serverCountMsgPayload:
 		o := jObj().set("count", jUint(x.Count))
 		if x.Approximate != nil {
@@ -722,7 +734,7 @@ func vpH_C10_mutations() {
 	enc, dec, _, label := vpC10RoundTrip(which)
 	b, err := enc()
 	vpAssert(err == nil, "C10.encodes")
-	root := vpJTok[string(b)]
+	root, _ := vpJLookup(b)
 	var nodes []*vpJ
 	vpJNodes(root, &nodes)
 	n := nodes[vpChoice("node", len(nodes))]
